@@ -194,7 +194,10 @@ fn run_case(g: &mut Gen, w: &mut World, cfg: &Cfg) -> Outcome {
     };
     let start = cur;
     if cur.ms < 0 || cur.minute as i64 != cur.ms / MS_PER_MIN {
-        return Outcome::fail("harness: world starts with an inconsistent clock", format!("{:?}", cur));
+        return Outcome::fail(
+            "clock created at genesis: negative, or minute timestamp is not the milli timestamp rounded down to minutes",
+            format!("config {}: {:?}", cfg.key, cur),
+        );
     }
     let nv = cfg.validators;
     let steps = 1 + g.len(59);
@@ -463,6 +466,16 @@ fn case(g: &mut Gen) -> Outcome {
     with_world(cfg.key, cfg.genesis, no_build, |w| run_case(g, w, cfg))
 }
 
+/// Minimal histories found while proving the check sensitive: a round with the timestamp equal to
+/// the recorded one; a round that ends the epoch; a round 1 ms later (minute rounding); one case on
+/// each of the other three worlds (their genesis clocks are checked at the start of every case).
+fn fixed_tapes() -> Vec<Vec<u8>> {
+    ["000000002d000000000000000000000000", "00000000000000000000", "000000004e000000000000000000", "40", "80", "c0"]
+        .iter()
+        .map(|h| hex::decode(h).unwrap())
+        .collect()
+}
+
 pub fn check() -> Check {
     Check::new(
         "C44",
@@ -471,6 +484,6 @@ pub fn check() -> Check {
     )
     .assume("accepted exactly when: timestamp >= recorded timestamp and representable by the i32 minute clock, round > current round, and the leader history is consistent (gap count = progress - 1, validator indexes in range); transactions whose only flaw is the leader history may go either way (the property does not speak about them) but their consequences are checked")
     .assume("latest protocol version only (second precision available); genesis times >= 1 h after 1970 so that minute rounding of negative instants cannot matter")
-    .part(Part::new("histories", 5_000, 250_000, 900, case))
+    .part(Part::new("histories", 5_000, 250_000, 900, case).fixed(fixed_tapes()))
     .min_nontrivial_pct(10.0)
 }
